@@ -302,7 +302,12 @@ def validate(chk, items, tag, nchunk=4):
         if m['matched'] < m['len']:
             raise tlc.TLCError('FtpScopeMon did not consume a trace (%d of %d events): %s' % (m['matched'], m['len'], summary))
         mask = m['bad'] % 1000
-        kind_mismatch = m['bad'] >= 1000
+        kind_mismatch = (m['bad'] // 1000) % 2 == 1
+        if m['bad'] // 2000 and rec['outcome'] == 'ok':
+            less = chk.extra.setdefault('ftp_asked_for_less_than_reference', {'crawls': 0, 'examples': []})
+            less['crawls'] += 1
+            if len(less['examples']) < 8 and summary.split(' conc=')[0] not in [x.split(' conc=')[0] for x in less['examples']]:
+                less['examples'].append(summary)
         replay_obj = {'scenario': scen, 'origin': origin, 'commands': [[e['c'], e['raw']] for e in cmds]}
         if rec['outcome'] == 'hang':
             # termination is not C02's subject (C13 / C18): an endless crawl is judged by the commands it sent
@@ -374,7 +379,7 @@ def judge_controls(base_ok, bad, inj, sv, mv):
         if x['accepted']:
             raise tlc.TLCError('binding self-test: FtpScopeTrace accepts a recording with a corrupted field (%s)' % what)
     for (c, p, rule, _), x in zip(inj, mv):
-        if x['bad'] % 1000 != 1 << RULES.index(rule):
+        if x['bad'] % 1000 != 1 << RULES.index(rule):   # (the flags above 1000 are not part of the rule mask)
             raise tlc.TLCError('monitor self-test: injected %s %s gives mask %d, expected rule %s'
                                % (c, path_text(p), x['bad'], rule))
     return '%d corrupted recordings rejected by FtpScopeTrace, %d injected commands flagged by FtpScopeMon' % (len(bad), len(inj))
